@@ -144,7 +144,10 @@ fn jacobian<T: Ev + Re + Sc>(t: &mut Toks, cx: &mut Ctx, run: impl Fn(Vector<T>,
                 if family == "affine" {
                     // dyadic data: J equals the coefficient matrix exactly
                     for i in 0..m { for c in 0..n { if let Some(d) = f.comps[i].diff(c) { let e = d.eval(&point); let dyadic = delta.to_bits() & ((1u64 << 52) - 1) == 0;   // delta = 2^-k: every intermediate is exact
-                        let slack = if dyadic { 0.0 } else { 8.0 * f64::EPSILON * (1.0 + os[0][i].mag() + os[c + 1][i].mag()) / delta };
+                        // non-dyadic delta: both evaluations round; the error of a sum of n+1 terms is bounded through the
+                        // sum of the term magnitudes (not through |f|, which may be small by cancellation)
+                        let terms: f64 = (0..n).map(|q| f.comps[i].diff(q).map(|dq| dq.eval(&point).mag() * (point[q].mag() + delta.abs())).unwrap_or(0.0)).sum();
+                        let slack = if dyadic { 0.0 } else { 8.0 * f64::EPSILON * (n as f64 + 2.0) * (1.0 + os[0][i].mag() + os[c + 1][i].mag() + 2.0 * terms) / delta };
                         cx.check((j[(i, c)] - e).mag() <= slack, &format!("affine map: entry ({}, {}) differs from the coefficient", i, c)); } } }
                 } else if family == "smooth" {
                     for i in 0..m { for c in 0..n { if let Some(d) = f.comps[i].diff(c) { let e = d.eval(&point); let scale = 1.0 + os[0][i].mag() + e.mag();
